@@ -1,3 +1,4 @@
+import RavenModel.Model.SessionView
 import RavenModel.Model.Plan
 import RavenModel.Model.Expunge
 import RavenModel.Model.MailInv
@@ -67,5 +68,32 @@ theorem plan_counts_rows :
     [(b!"message.HandleExpunge"), (b!"selection.HandleClose"), (b!"db.GetUnseenCountPerUser")].all (fun f =>
       (Plan.trace f).all (fun e => !GoStr.containsSub e (b!"LIKE(") || GoStr.containsSub e (b!"LIKE(delimited)"))) = true := by
   decide
+
+/-! ## the view of a session that keeps the mailbox selected while messages arrive (`Model/SessionView`) -/
+
+/-- C09.8  the notices of the session's own EXPUNGE / UID EXPUNGE can be applied by the client — every number lies within
+what it has been told of by then — and applying them leaves it with exactly the mailbox as it is: for every mailbox, every
+set of arrivals the session had not asked about yet, every choice of doomed messages (since repair 525a68f the pending
+`* n EXISTS` goes out first). -/
+theorem expunge_notices_applicable (s : SessionView.St) (d : Mail.Link → Bool) :
+    SessionView.applicable s.srv.length (SessionView.expungeNotices s d) = true ∧
+    (SessionView.step s (.expunge d)).view = (SessionView.step s (.expunge d)).srv :=
+  SessionView.expunge_view s d
+
+/-- C09.8'  for every interleaving of arrivals, own expunges and polls, what the session has been told of is the front of the
+mailbox (what arrived since is behind it, nothing is missing or out of place in front). -/
+theorem session_view_is_front (xs : List Mail.Link) (evs : List SessionView.Ev) :
+    SessionView.Inv (SessionView.run ⟨xs, xs⟩ evs) :=
+  SessionView.inv_run _ evs (SessionView.inv_select xs)
+
+/-- C09.8''  before the repair the notices were numbered in a mailbox the client had not been told of: refuted by one known
+message, one arrival flagged \Deleted by another session, and an EXPUNGE (`* 2 EXPUNGE` for a client that knows of one). -/
+theorem old_expunge_notices_refuted : ¬ SessionView.notices_applicable_old := SessionView.notices_applicable_old_refuted
+
+/-- …and held only when nothing that had arrived unannounced was among the doomed -/
+theorem old_expunge_notices_partial (s : SessionView.St) (d : Mail.Link → Bool) (extra : List Mail.Link)
+    (hs : s.srv = s.view ++ extra) (hx : ∀ l ∈ extra, d l = false) :
+    SessionView.applicable s.view.length (SessionView.expungeNotices s d) = true :=
+  (SessionView.expunge_known_partial s d extra hs hx).1
 
 end Raven.Props.C09
